@@ -472,7 +472,7 @@ pub fn run_probe_property<H: HB>(prop: &'static str, tier: Tier) -> Outcome {
         (_, false) => (4, 3),
     };
     let prios: Vec<i32> = (0..m).collect();
-    let mut cfg = base_cfg(prop, k, &prios, A_REACH | match prop {
+    let mut cfg = base_cfg(prop, k, &prios, A_REACH | A_POP_IF | match prop {
         "C16" => A_CLEAR_DRAIN | A_DRAIN_FORGET | A_EXTEND | A_CLONE,
         // sorted consumption after in-place mutation from either end
         "C06" => A_ITER_MUT | A_ITER_MUT_BACK | A_RETAIN_MUT | A_RETAIN | A_CLONE,
@@ -1550,6 +1550,39 @@ pub fn run_c18(tier: Tier) -> Outcome {
             return out;
         }
         run_seeds::<StdRandom>(&mut out, &format!("E2 seeds of {n} elements, std RandomState, depth 1"), &c, seeds, 1, &no_probes);
+        if !out.violations.is_empty() {
+            return out;
+        }
+    }
+    // serde round trips under the colliding hashers (Deserialize builds its map with H::default())
+    {
+        fn rt<HH: HB>(out: &mut Outcome, prop: &'static str, label: &str) {
+            let t0 = Instant::now();
+            let cfg = base_cfg(prop, 3, &[0, 1], A_REACH | A_PAYLOAD);
+            let mut ex = Explorer::<HH>::new(&cfg);
+            ex.collect = Some(Default::default());
+            ex.run_closed();
+            let nodes = ex.collect.take().unwrap().into_inner().unwrap();
+            let use_cfg = base_cfg(prop, 3, &[0, 1], A_PUSH | A_CHANGE | A_REMOVE | A_POP);
+            let uni = cfg.universe();
+            let (cases, viol) = crate::post::par_each(nodes.len(), threads(), |i| {
+                let n = &nodes[i];
+                let mm = model_of(&n.q.snap());
+                crate::crash::set_case(|| crate::post::node_case(prop, n, &uni, None, "serde-round-trip", String::new()));
+                let r = std::panic::catch_unwind(std::panic::AssertUnwindSafe(|| crate::with_q!(&n.q, x => crate::c15::round_trip(x, &mm, &use_cfg))));
+                match r {
+                    Ok(Ok(c)) => Ok(c),
+                    Ok(Err(e)) => Err(crate::post::node_case(prop, n, &uni, None, "serde-round-trip", e)),
+                    Err(e) => Err(crate::post::node_case(prop, n, &uni, None, "serde-round-trip", format!("panicked: {}", panic_text(&e)))),
+                }
+            });
+            absorb_post(out, &format!("serde round trip of every E1 state (3 items x 2 priorities) under the {label} hasher: 3 channels x both kinds"), cases, viol, t0, json!({"states": nodes.len()}));
+        }
+        rt::<CollideAll>(&mut out, prop, "all-colliding");
+        if !out.violations.is_empty() {
+            return out;
+        }
+        rt::<CollideSome>(&mut out, prop, "partially colliding");
         if !out.violations.is_empty() {
             return out;
         }
